@@ -81,6 +81,12 @@ def pool(R):
         P.append({"fn": "jalali", "s": s}); cal.append(len(P) - 1)
         P.append({"fn": "hijri", "s": s}); cal.append(len(P) - 1)
     pool.calendars = cal
+    # searches over several languages on texts that no character decides (digits and punctuation only): the language chosen — and with it the
+    # reading — must not depend on the interpreter's hash seed
+    hs = []
+    for t, lg in (("10.11.2012", ["en", "de", "fr"]), ("7/8/2019", ["es", "en"]), ("01/02/03 04:05", ["en", "es", "it", "nl"]), ("on 10.11.2012 and 12.11.2012", ["fr", "en", "de", "ru"])):
+        P.append({"fn": "search", "s": t, "kw": {"languages": lg, "add_detected_language": True, "settings": {"RELATIVE_BASE": B1}}}); hs.append(len(P) - 1)
+    pool.hashy = hs
     # a skip token that ends in a full stop, used by the first search in the process, and a later search whose sentence splitting depends on
     # which abbreviations the locale knows
     ab = []
@@ -237,6 +243,9 @@ def run(ctx):
         cg = getattr(pool, "calendars", [])
         for _ in range(24 if tier == "quick" else 400):
             hists.append(([R.choice(cg) for _ in range(R.randint(2, 4))], "0"))
+        for i_ in getattr(pool, "hashy", []):
+            for sd_ in ("1", "7", "42", "1234"):
+                hists.append(([i_, i_], sd_))
         abg = getattr(pool, "abbrev", [])
         if abg:
             hists.append((abg, "0")); hists.append((abg[::-1] + abg, "0"))
